@@ -531,7 +531,7 @@ class FnRewriter:
             vec = texts[-1]
             pat = self.text_of(kw + 1, lb - 3)
             self.edit(toks[kw + 1].start, toks[lb - 1].end, "vx_e%d in 0..%s.len()" % (n, vec), "R15")
-            self.edit(toks[lb].end, toks[lb].end, " let %s = %s[vx_e%d];" % (pat, vec, n), "R15")
+            self.edit(toks[lb].end, toks[lb].end, " let %s = %s%s[vx_e%d];" % (pat, "&" if n in self.opts.get("forentries_ref", set()) else "", vec, n), "R15")
             self.rule("R15")
 
     def r8_signature(self):
@@ -1142,6 +1142,8 @@ class Assembler:
                             cur = None
                         elif c2 == "forentries":
                             opts.setdefault("forentries", set()).add(int(p2[1]))
+                            if len(p2) > 2 and p2[2] == "ref":      # `for x in slice` over non-Copy elements: `let x = &slice[i];`
+                                opts.setdefault("forentries_ref", set()).add(int(p2[1]))
                             cur = None
                         elif c2 == "tailbind":
                             opts["tailbind"] = p2[1]
